@@ -288,6 +288,15 @@ class Ref:
                 else:
                     fr = F if frame == "me" else R.frames[frame]
                     r = aux.done if aux in fr.auxes else False
+        elif k == "auxdonex":
+            which, frame, framer = n[1], n[2], n[3]
+            fr = self.framers[framer].frames[frame]
+            if which in ("any", "all"):
+                ds = [a.done for a in fr.auxes]
+                r = any(ds) if which == "any" else (bool(ds) and all(ds))
+            else:
+                aux = self.framers[which]
+                r = aux.done if aux in fr.auxes else False
         elif k == "status":
             r = self.framers[n[1]].status == n[2]
         elif k == "updated":
